@@ -7,6 +7,7 @@ the documented domain.  Not proved: that `syn` classifies concrete syntax into t
 as modelled, and that an emitted error makes rustc fail (sampled by the probes).
 -/
 import EnumToolsModel.Lemmas.Expand
+import EnumToolsModel.Lemmas.ReprTableEq
 namespace ET.Thm
 
 /-- the repr attributes of a declaration -/
@@ -113,5 +114,10 @@ literal, a literal above i64::MAX are all outside the domain -/
 example : ¬ DiscExpr.other.InDomain ∧ ¬ (DiscExpr.neg true (.neg true (.intLit 1))).InDomain ∧
     ¬ (DiscExpr.intLit 9223372036854775808).InDomain ∧ (DiscExpr.neg true (.intLit 9223372036854775808)).InDomain := by
   refine ⟨by simp [DiscExpr.InDomain], by simp [DiscExpr.InDomain], by simp [DiscExpr.InDomain, i64Max], by simp [DiscExpr.InDomain, i64Min]⟩
+
+/-- exactly the twelve primitive reprs pass the repr table written in `parser/mod.rs` on this run -/
+theorem C12_repr_table_source (t : Target) :
+    (ET.Generated.reprArms.all (armAgrees t)) = true
+    ∧ (∀ r, (reprTable t r).isSome ↔ r ∈ ET.Generated.reprArms.map (·.1)) := repr_table_source t
 
 end ET.Thm
